@@ -185,8 +185,18 @@ class Engine(Core, ExprMixin, CallMixin, StmtMixin):
                     if tag == exits[0][0]:
                         self.bounded_only_clauses.append("%s/%s" % (qual, label))
                     continue
-                g = self.eval_spec(e, env2, exit_st, old_heap=self.fn_old_heap, old_env=env)
-                self.oblige_split("post", label + sfx, g, exit_st, fn, info={"clause": e})
+                variants = self.split_on_merged_heap(exit_st)
+                if variants is None:
+                    g = self.eval_spec(e, env2, exit_st, old_heap=self.fn_old_heap, old_env=env)
+                    self.oblige_split("post", label + sfx, g, exit_st, fn, info={"clause": e})
+                else:
+                    # the exit heap is an if-then-else merge: prove the clause on each branch state separately
+                    for vtag, cnd, hv in variants:
+                        sv = exit_st.copy()
+                        sv.heap = hv
+                        sv.path.append(cnd)
+                        g = self.eval_spec(e, env2, sv, old_heap=self.fn_old_heap, old_env=env)
+                        self.oblige_split("post", "%s%s[%s]" % (label, sfx, vtag), g, sv, fn, info={"clause": e})
             for key in sorted(all_written):
                 new_arr = self.heap_arr(exit_st, key)
                 old_arr = self.initial_heap_arr(key)
